@@ -810,6 +810,7 @@ class RF24:
         if not send_only and (self._in[0] >> 1) < 6:
             self.flush_rx()
         self.clear_status_flags()
+        self.update()  # refresh the cached status (it still shows the flags just cleared)
         # self._reg_write(0xE3)
         up_cnt = 0
         self._ce_pin.value = True
